@@ -52,6 +52,11 @@ def extended_class(cls, variant=0):
         def bare_prop(self) -> int:
             return 3
 
+        @staticmethod
+        def slots_for(jobs: int = 1, spare: int = 0) -> int:
+            """A public method that happens to be a staticmethod."""
+            return jobs + spare
+
         def _hidden(self) -> None:
             """Not public."""
 
@@ -67,7 +72,7 @@ def _publish(ext, base, register):
     ext.__qualname__ = "Extended"
     ext.__module__ = __name__
     for v in vars(ext).values():
-        fs = [v.fget, v.fset] if isinstance(v, property) else [v]
+        fs = [v.fget, v.fset] if isinstance(v, property) else [v.__func__ if isinstance(v, staticmethod) else v]
         for f in fs:
             if isinstance(f, types.FunctionType):
                 f.__qualname__ = "Extended." + f.__name__
